@@ -165,8 +165,99 @@ type authCase struct {
 	CU    []int          `json:"cu"`
 	CP    []int          `json:"cp"`
 	Extra [][2][]int     `json:"extra"` // additional outgoing-context metadata pairs (key, value)
+	// Calls != nil: a HISTORY of calls on ONE client connection (no dial-level credential), each with
+	// its own per-call credential (grpc.PerRPCCredentials call option); Impl["calls"] lists the outcomes
+	Calls []*authCall    `json:"calls,omitempty"`
 	Impl  map[string]any `json:"impl"`
 }
+
+type authCall struct {
+	Kind string `json:"kind"` // "unary" | "stream"
+	Cred bool   `json:"cred"`
+	CU   []int  `json:"cu"`
+	CP   []int  `json:"cp"`
+}
+
+func runAuthHistory(k *authCase) {
+	impl := map[string]any{}
+	k.Impl = impl
+	kind, msg := hx.Guard(30*time.Second, func() {
+		a := auth.NewAuth(types.AuthConfig{Username: strOf(k.SU), Password: strOf(k.SP)})
+		srv := &authServer{}
+		ep, err := newEndpoint(srv, []grpc.ServerOption{grpc.StreamInterceptor(a.StreamInterceptor), grpc.UnaryInterceptor(a.UnaryInterceptor)}, nil)
+		if err != nil {
+			impl["crash"] = "dial-error"
+			return
+		}
+		defer ep.close()
+		cli := pb.NewCoreRPCClient(ep.conn)
+		res := []map[string]any{}
+		for _, c := range k.Calls {
+			ctx, cancel := context.WithTimeout(context.Background(), 10*time.Second)
+			var opts []grpc.CallOption
+			if c.Cred {
+				opts = append(opts, grpc.PerRPCCredentials(auth.NewCredential(types.AuthConfig{Username: strOf(c.CU), Password: strOf(c.CP)})))
+			}
+			srv.mu.Lock()
+			before := srv.served
+			srv.mu.Unlock()
+			var cerr error
+			if c.Kind == "unary" {
+				_, cerr = cli.Info(ctx, &pb.Empty{}, opts...)
+			} else {
+				st, serr := cli.WatchServiceStatus(ctx, &pb.Empty{}, opts...)
+				cerr = serr
+				if serr == nil {
+					var m *pb.ServiceStatus
+					if m, cerr = st.Recv(); cerr == nil && m.IntervalInSecond != 7 {
+						cerr = errors.New("garbled")
+					}
+				}
+			}
+			cancel()
+			cls := "served"
+			if cerr != nil {
+				cls = errClass(cerr)
+			}
+			srv.mu.Lock()
+			ran := srv.served-before == 1
+			srv.mu.Unlock()
+			res = append(res, map[string]any{"class": cls, "handler_ran": ran})
+		}
+		impl["calls"] = res
+	})
+	if kind != "" {
+		impl["crash"] = kind + ":" + msg
+	}
+}
+
+// genAuthHistory: 2-7 calls on one connection; good and bad credentials and anonymous calls in every
+// order, unary and streaming mixed (a server that remembers an earlier success of the connection,
+// the peer or the stream kind would serve a later bad call)
+func genAuthHistory(r *hx.Rng) *authCase {
+	su, sp := genName(r), genPass(r)
+	k := &authCase{SU: bytesOf(su), SP: bytesOf(sp)}
+	n := r.Range(2, 7)
+	for i := 0; i < n; i++ {
+		c := &authCall{Kind: hx.Pick(r, "unary", "stream"), Cred: true}
+		cu, cp := su, sp
+		switch r.Intn(8) {
+		case 0, 1, 2: // good
+		case 3:
+			cu = flipCase(r, su)
+		case 4:
+			cp = hx.Pick(r, sp+"x", flipCase(r, sp)+"!", "", genPass(r)+"#")
+		case 5:
+			cu = genName(r) + "z"
+		case 6, 7:
+			c.Cred = false
+		}
+		c.CU, c.CP = bytesOf(cu), bytesOf(cp)
+		k.Calls = append(k.Calls, c)
+	}
+	return k
+}
+
 
 type authServer struct {
 	pb.UnimplementedCoreRPCServer
@@ -339,9 +430,18 @@ func testGenAuth(t *testing.T) {
 		for _, f := range fixed {
 			cases = append(cases, &authCase{SU: bytesOf(f[0]), SP: bytesOf(f[1]), Cred: true, CU: bytesOf(f[2]), CP: bytesOf(f[3])})
 		}
+		// histories on one connection: good -> bad -> none -> good, unary and streaming mixed
+		good := func(kind string) *authCall { return &authCall{Kind: kind, Cred: true, CU: bytesOf("Admin"), CP: bytesOf("secret")} }
+		bad := func(kind string) *authCall { return &authCall{Kind: kind, Cred: true, CU: bytesOf("Admin"), CP: bytesOf("guess")} }
+		other := func(kind string) *authCall { return &authCall{Kind: kind, Cred: true, CU: bytesOf("root"), CP: bytesOf("secret")} }
+		anon := func(kind string) *authCall { return &authCall{Kind: kind} }
+		cases = append(cases, &authCase{SU: bytesOf("Admin"), SP: bytesOf("secret"), Calls: []*authCall{good("unary"), bad("unary"), anon("stream"), good("stream"), other("unary"), bad("stream")}})
+		cases = append(cases, &authCase{SU: bytesOf("Admin"), SP: bytesOf("secret"), Calls: []*authCall{bad("stream"), anon("unary"), good("stream"), anon("stream"), bad("unary")}})
 		for i := 0; i < n; i++ {
 			if i%12 == 11 {
 				cases = append(cases, genAuthMalformed(r))
+			} else if i%4 == 1 {
+				cases = append(cases, genAuthHistory(r))
 			} else {
 				cases = append(cases, genAuth(r))
 			}
@@ -350,7 +450,13 @@ func testGenAuth(t *testing.T) {
 			k.ID = fmt.Sprintf("a%d-%d", seed, i)
 		}
 	}
-	runParallel(len(cases), 16, func(i int) { runAuth(cases[i]) })
+	runParallel(len(cases), 16, func(i int) {
+		if cases[i].Calls != nil {
+			runAuthHistory(cases[i])
+		} else {
+			runAuth(cases[i])
+		}
+	})
 	out := hx.OpenOut()
 	defer out.Close()
 	for _, k := range cases {
